@@ -1278,6 +1278,23 @@ def e2e_options(rng, style=None):
         o["relative_imports"] = True
     if rng.random() < 0.25:
         o["generic_collections"] = True  # with format__frozen: reverted by validate() on every route
+    # the rest of the configuration space, thinly: every CLI-settable option occurs
+    if rng.random() < 0.35:
+        from xsdata.models.config import DocstringStyle
+
+        extra = {
+            "docstring_style": rng.choice([e.value for e in DocstringStyle]),
+            "format__slots": True,
+            "format__order": True,
+            "format__eq": False,
+            "format__repr": False,
+            "format__unsafe_hash": True,
+            "wrapper_fields": True,
+            "ignore_patterns": True,
+            "max_line_length": rng.choice([60, 100]),
+        }
+        for k in rng.sample(sorted(extra), rng.randint(1, 3)):
+            o[k] = extra[k]
     return o
 
 
